@@ -1,6 +1,6 @@
 """Per-property verification plans: which models TLC explores, which traces are recorded from the
 real code and validated, which TLC-generated vectors are replayed. See DESIGN.md section 6."""
-from vlib import model_check, record_and_validate, gen_and_replay, mkcfg, build_cli
+from vlib import model_check, record_and_validate, gen_and_replay, mkcfg, build_cli, gen_record_validate
 
 
 def bdd_jobs(ctx, mode, n, segments, length, nmax):
@@ -220,6 +220,12 @@ def C09(ctx):
     model_check(ctx, "MC_Watched", "MC_Watched_all2.cfg", "all 400 two-clause CNFs over 3 variables, depth 4", workers=8, timeout=1200)
     model_check(ctx, "MC_Watched", "MC_Watched_ascoded.cfg", "regression: the replacement-watch choice as originally coded misses a unit",
                 workers=2, expect_violation=True)
+    # spec -> impl -> spec: every decide/pop behaviour (depth 4) of the bounded model replayed into the real SATSolver
+    fam = "Fam3" if ctx.quick else "FamAll2"
+    cfg = mkcfg(ctx, "GenWatched_%s.cfg" % fam, "SPECIFICATION GSpec\nCONSTANTS\n  NV = 3\n  PickAsCoded = FALSE\n  MaxDepth = 9\n  GDepth = %d\n  Family <- %s\n"
+                "INVARIANT Emit\nCHECK_DEADLOCK FALSE\n" % (4 if ctx.quick else 3, fam))
+    gen_record_validate(ctx, "MC_GenWatched", cfg, "satvec", "all decide/pop behaviours of the bounded Watched model (%s)" % fam,
+                        "TraceUnitProp", "TraceUnitProp.cfg", chunks=6 if ctx.quick else 16, extra=["--nv", 3], timeout=2400)
     n = 6 if ctx.quick else 40
     segs = 40 if ctx.quick else 60
     record_and_validate(ctx, [("sat_%d" % i, ["record", "sat", "--seed", ctx.seed * 1000 + i, "--segments", segs, "--len", 40,
